@@ -57,6 +57,7 @@ class Driver:
         # very short results (a 1-byte result matches many offsets); the verdict on every event is TLC's
         self.mode, self.j, self.k, self.o = 'fresh', 1, 0, 0
         self.stopped = False
+        self.companion = None
 
     def _enter(self):
         if self.mode == 'fresh' and self.j <= len(self.lens):
@@ -93,6 +94,8 @@ class Driver:
 
     def op(self, kind, *args):
         fr = self.fr
+        if self.companion is not None:
+            self.companion.step()
         try:
             if kind == 'read':
                 r = fr.readLrBytes(args[0])
@@ -122,6 +125,29 @@ class Driver:
         except Exception as e:
             self.ev.append(dict(op='exception', during=kind, err='%s: %s' % (type(e).__name__, str(e)[:160])))
             self.stopped = True
+
+
+class Companion:
+    """another reader at work on another file while the reader under test runs (two files open at once): it reads its records in a
+    loop and must get what it gets alone"""
+    def __init__(self, File, data, pays, first):
+        self.fr = File.FileRead(io.BytesIO(data), 'companion', keepGoing=False)
+        self.pays, self.i, self.errors, self.steps = pays, 0, [], 0
+        self.first = first          # position of the first logical record
+
+    def step(self):
+        self.steps += 1
+        try:
+            if self.i == len(self.pays):
+                self.fr.seekLr(self.first)
+                self.i = 0
+            r = self.fr.readLrBytes(-1)
+            if bytes(r or b'') != self.pays[self.i]:
+                self.errors.append('record %d: %d bytes %r..., alone %d bytes' % (self.i + 1, len(r or b''), bytes(r or b'')[:12], len(self.pays[self.i])))
+            self.i += 1
+        except Exception as e:
+            self.errors.append('%s: %s' % (type(e).__name__, e))
+            self.i = len(self.pays)
 
 
 def abstract_told(ev_list):
@@ -290,6 +316,7 @@ def run(ctx):
         cfg_l.append(dict(dict(maxpr=0, rn=0, fn=0, ck=0, fnval=0, rnbase=0), **(cfg or {}))); meta.append(m)
 
     # ---- (2) reader histories ----
+    ncase, prev_file = [0], [None]
     def reader_case(lens, layout, tif, nops, small):
         pays = [G.payload(k + 1, L) for k, L in enumerate(lens)]
         data, starts = G.render(pays, layout, tif)
@@ -299,6 +326,10 @@ def run(ctx):
                 return      # the two byte orders are indistinguishable (stated exclusion)
         tr = [dict(op='pr', **p) for p in layout] + [dict(op='endlayout', size=len(data))]
         dr = Driver(File, data, lens, starts)
+        if ncase[0] % 4 == 1 and prev_file[0] is not None:
+            dr.companion = Companion(File, *prev_file[0])
+        ncase[0] += 1
+        prev_file[0] = (data, pays, starts[0])
         for _ in range(nops):
             if dr.stopped:
                 break
@@ -325,6 +356,9 @@ def run(ctx):
                 dr.ev.append(dict(op='strip', equal=out.getvalue() == plain, markers=m, bytes=b))
             except Exception as e:
                 dr.ev.append(dict(op='exception', during='strip_tif', err='%s: %s' % (type(e).__name__, e)))
+        if dr.companion is not None and dr.companion.errors:
+            ctx.fail('a second LIS reader at work on another file while this one runs reads differently from alone: %s' % dr.companion.errors[0],
+                     dict(lens=lens, tif=tif), sig=dict(kind='two-readers'))
         add('read', tr + dr.ev, lens, tif, None, dict(lens=lens, tif=tif, layout=layout if len(layout) < 30 else '(%d PRs)' % len(layout)))
         ctx.case(('read', len(traces)), len(layout) > len(lens))
 
